@@ -18,7 +18,7 @@ def prebuild(ctx):
     import sys
     sys.path.insert(0, os.path.join(C.VERIF, "harness", "translate"))
     import py2coq_core
-    py2coq_core.prebuild(ctx, C, ["MaxEvaluations.shouldTerminate"])
+    py2coq_core.prebuild(ctx, C, ["MaxEvaluations.shouldTerminate", "Algorithm.run", "Algorithm.run[callback=None]"])
 
 
 META = {
